@@ -68,6 +68,22 @@ def _list_backups():
             return [d]
     raise RuntimeError("C20 list_backups harness missing")
 
+def _sbwrite():
+    """write_backup_super() -- every backup superblock ext2fs_flush2 writes carries its own group number AND a checksum over the
+    bytes as written (source harness/C14/sbwrite_t.c, backup-path configs only): a backup whose checksum does not match cannot be
+    opened with e2fsck -b, i.e. it is not a backup 'where the format prescribes'"""
+    p = _os.path.join(_os.path.dirname(_os.path.abspath(__file__)), "..", "C14", "spec.py")
+    sp = _ilu.spec_from_file_location("spec_C14_for_C07", p)
+    m = _ilu.module_from_spec(sp)
+    sp.loader.exec_module(m)
+    for h in m.HARNESSES:
+        if h["name"] == "sbwrite_t":
+            d = dict(h)
+            d["src"] = "../C14/sbwrite_t.c"
+            d["configs"] = [c for c in h["configs"] if c.get("MODE") == 1]
+            return [d]
+    raise RuntimeError("C14 sbwrite_t harness missing")
+
 HARNESSES = [
     dict(name="reserve_sb", src="reserve_sb.c",
          extra_src=["lib/ext2fs/closefs.c", "lib/ext2fs/blknum.c"],
@@ -210,6 +226,7 @@ def _clamptime():
             return [d]
     raise RuntimeError("C18 clamptime harness missing")
 HARNESSES += _list_backups()
+HARNESSES += _sbwrite()
 HARNESSES += _clamptime()
 
 MANIFEST = {
